@@ -155,9 +155,10 @@ def r8_2(repo: Repo) -> RuleResult:
         part_ok = None
         if starts:
             st = starts[0].targets[0].id
-            ends = [s for s in lp.body if isinstance(s, ast.Assign) and isinstance(s.value, ast.Call) and norm(s.value.func) == "min" and len(s.value.args) == 2]
+            # the end bound may be a named local or sit directly in the inner range(...) / slice
+            ends = [c for c in ast.walk(lp) if isinstance(c, ast.Call) and norm(c.func) == "min" and len(c.args) == 2 and not c.keywords]
             want = sym.poly(ast.parse("%s + %s" % (st, size), mode="eval").body)
-            part_ok = any(any(sym.poly(a) == want for a in e.value.args) for e in ends)
+            part_ok = any(any(sym.poly(a) == want for a in e.args) for e in ends)
         else:
             part_ok = None  # cursor-style loop (generator input): partition follows from the cursor idiom, see R12.1
         # divisor guard: the definition of `size` that reaches this loop
